@@ -15,22 +15,27 @@ Aff == INSTANCE Affinity
 \* TimeStamp, TimeInterval and BoundingBox with zero buffers: nothing grows under any reading of C06.
 \* <<i, u>> with u = 0 when both have zero extent (a TimeStamp, a zero-length interval, a zero-duration box): the
 \* ratio is then undefined; the implementation's zero-union guard makes it 0 (ZeroUnion below).
-AffRat(a, b) ==
+\* With buffers (tb ticks, a power of two): kinds without an area grow by +- tb in time (Affinity!PExt); the exact value
+\* is then known when either geometry is time-only (IoU of the grown time extents) -- lists with buffers are restricted
+\* to such pairs (MC_Matching!Exactable) and contain no TimeInterval (whose growth C06 leaves open).
+AffRatB(a, b, tb) ==
     IF a.type \in Aff!TimeKinds \/ b.type \in Aff!TimeKinds
-    THEN Aff!TimeIoU(TimeExtent(a, Aff!FMAXT), TimeExtent(b, Aff!FMAXT))
+    THEN Aff!TimeIoU(Aff!PExt(a, tb, 0), Aff!PExt(b, tb, 0))
     ELSE Aff!RectIoU(a, b)            \* boxes and rectilinear (multi-)polygons, interior rings included
+AffRat(a, b) == AffRatB(a, b, 0)
 RECURSIVE Gcd(_, _)
 Gcd(a, b) == IF b = 0 THEN a ELSE Gcd(b, a % b)
 Lcm(a, b) == (a \div Gcd(a, b)) * b
 RECURSIVE LcmSet(_)
 LcmSet(S) == IF S = {} THEN 1 ELSE LET x == CHOOSE x \in S : TRUE IN Lcm(x, LcmSet(S \ {x}))
-ZeroUnion(a, b) == AffRat(a, b)[2] = 0
+ZeroUnion(a, b, tb) == AffRatB(a, b, tb)[2] = 0
 Guarded(r) == IF r[2] = 0 THEN <<0, 1>> ELSE r                       \* "if union == 0: return 0"
-Denoms(src, tgt) == {Guarded(AffRat(src[i], tgt[j]))[2] : i \in DOMAIN src, j \in DOMAIN tgt}
+Denoms(src, tgt, tb) == {Guarded(AffRatB(src[i], tgt[j], tb))[2] : i \in DOMAIN src, j \in DOMAIN tgt}
 \* W[i][j] = affinity(src[i], tgt[j]) * D, D = lcm of the denominators; a zero-union pair counts 0
-ExactW(src, tgt) ==
-    LET D == LcmSet(Denoms(src, tgt)) IN
-    [i \in DOMAIN src |-> [j \in DOMAIN tgt |-> LET r == Guarded(AffRat(src[i], tgt[j])) IN r[1] * (D \div r[2])]]
+ExactWB(src, tgt, tb) ==
+    LET D == LcmSet(Denoms(src, tgt, tb)) IN
+    [i \in DOMAIN src |-> [j \in DOMAIN tgt |-> LET r == Guarded(AffRatB(src[i], tgt[j], tb)) IN r[1] * (D \div r[2])]]
+ExactW(src, tgt) == ExactWB(src, tgt, 0)
 
 (* ---------------- one-to-one pairings and their value ---------------- *)
 OneToOne(P) == \A p, q \in P : p # q => (p[1] # q[1] /\ p[2] # q[2])
@@ -84,8 +89,8 @@ AffOk(o, run) == \A i \in 1..NSrc(o), j \in 1..NTgt(o) : Aff!InUnit(run.aff[i][j
 \* The exact matrix judges a lattice run as long as the code's own compute_affinity is 0 on the zero-union pairs (where
 \* C06 leaves the value open); should an implementation choose another value there, the observed matrix judges instead.
 UseExact(o, run) == IsLat(o) /\ \A i \in 1..NSrc(o), j \in 1..NTgt(o) :
-                                  ZeroUnion(o.in.src[i], o.in.tgt[j]) => run.aff[i][j].l[1] = 0
-WOf(o, run) == IF UseExact(o, run) THEN ExactW(o.in.src, o.in.tgt) ELSE ObservedW(o, run)
+                                  ZeroUnion(o.in.src[i], o.in.tgt[j], o.in.tb) => run.aff[i][j].l[1] = 0
+WOf(o, run) == IF UseExact(o, run) THEN ExactWB(o.in.src, o.in.tgt, o.in.tb) ELSE ObservedW(o, run)
 \* floors move a sum of k entries by less than k
 Tol(o, run) == IF UseExact(o, run) THEN 0 ELSE Min(NSrc(o), NTgt(o))
 
@@ -101,7 +106,7 @@ HoldsRun(cl, o, run) ==
            [] cl = "ReportedAffinity" ->
                  InRange(M, n, m) => \A k \in DOMAIN M : IsPair(M[k]) =>
                      /\ M[k].a.h = run.aff[Some(M[k].s)][Some(M[k].t)].h             \* exactly the code's own affinity
-                     /\ IsLat(o) => Aff!EqRat(M[k].a, AffRat(o.in.src[Some(M[k].s)], o.in.tgt[Some(M[k].t)]))
+                     /\ IsLat(o) => Aff!EqRat(M[k].a, AffRatB(o.in.src[Some(M[k].s)], o.in.tgt[Some(M[k].t)], o.in.tb))
            [] cl = "UnpairedZero" -> \A k \in DOMAIN M : ~IsPair(M[k]) => Aff!IsZero(M[k].a)
            [] cl = "Optimal"      -> OptimalOf(M, WOf(o, run), n, m, Tol(o, run))
 Holds(cl, o) == \A u \in DOMAIN o.out.runs : HoldsRun(cl, o, o.out.runs[u])
